@@ -188,6 +188,30 @@ int main()
         h3.release();
         h2.release();
     }
+    // ---- bound values of a move-sensitive class type, every emission of several: "in order and unmodified" must hold each time,
+    //      whether every parameter is bound or some are left to the emission ------------------------------------------------
+    {
+        Signal<int> s;
+        std::string word = "bound-value-longer-than-any-small-string-buffer";
+        const int n = int(word.size());
+        auto hAll = s.connect([](std::string w, int k) { g_got = { int(w.size()), k }; }, word, 5);          // all bound, by value
+        auto hAllRef = s.connect([](const std::string &w, int k) { g_got = { int(w.size()), k }; }, word, 6); // all bound, by const&
+        auto hPart = s.connect([](std::string w, int k) { g_got = { int(w.size()), k }; }, word);             // one left to the emission
+        std::vector<int> vec = { 1, 2, 3, 4 };
+        auto hVec = s.connect([](std::vector<int> v) { g_got = { int(v.size()) }; }, vec);                    // all bound, another class type
+        word = "x";
+        vec.clear();
+        ConnectionHandle *all[] = { &hAll, &hAllRef, &hPart, &hVec };
+        for (int round = 0; round < 3; ++round) {
+            for (int i = 0; i < 4; ++i) {
+                for (int j = 0; j < 4; ++j)
+                    all[j]->block(j != i);
+                s.emit(9);
+                std::vector<int> want = i == 0 ? std::vector<int>{ n, 5 } : i == 1 ? std::vector<int>{ n, 6 } : i == 2 ? std::vector<int>{ n, 9 } : std::vector<int>{ 4 };
+                expect(("class-type bound value, emission " + std::to_string(round) + " cell " + std::to_string(i)).c_str(), want);
+            }
+        }
+    }
     std::printf("cells %ld failures %ld\n", g_cells, g_fail);
     return g_fail ? 1 : 0;
 }
